@@ -34,8 +34,9 @@ type world struct {
 func newWorld(now time.Time) *world {
 	w := &world{Now: now, Mem: "c26/mem/m0", Locks: map[string]string{}}
 	for i := 0; i < nTargets; i++ {
-		w.Targets = append(w.Targets, fmt.Sprintf("c26/main/t%d", i))
+		w.Targets = append(w.Targets, fmt.Sprintf("c26/main/t%d", i)) // buffered writes (1 s interval)
 	}
+	w.Targets = append(w.Targets, "c26/imm/t0", "c26/imm/t1") // immediate write mode (interval 0)
 	return w
 }
 
@@ -176,6 +177,8 @@ var keyPool = []strChoice{
 	{"len-70000", func(*world, *rand.Rand) string { return long(70000, "k") }},
 	{"unicode", func(*world, *rand.Rand) string { return "kulcs-ключ-🔑" }},
 	{"slashes", func(*world, *rand.Rand) string { return "a/b/c" }},
+	{"wildcard", func(*world, *rand.Rand) string { return "*" }},
+	{"wildcard-path", func(*world, *rand.Rand) string { return "a/*/*" }},
 	{"nul-byte", func(*world, *rand.Rand) string { return "a\x00b" }},
 	{"newline", func(*world, *rand.Rand) string { return "a\nb" }},
 }
@@ -971,6 +974,105 @@ func patchSweep(rpc string, k int, w *world) (msgs []proto.Message, label string
 	return nil, "", nil, false
 }
 
+// ---- strange keys ---------------------------------------------------------------------------
+
+func strangeKey(k string) bool {
+	if k == "" || len(k) > 1000 {
+		return true
+	}
+	for _, c := range k {
+		if c < 0x20 || c > 0x7e || c == '/' || c == '*' {
+			return true
+		}
+	}
+	return false
+}
+
+type swampKey struct{ Swamp, Key string }
+
+// strangeKeys lists the (swamp, key) pairs of a request whose key is empty, very long or has
+// unusual characters: every message that names a swamp, its own Key/Keys and those one list
+// level below (KeyValues[].Key, KeySlicePairs[].Key, Patches[].Key).
+func strangeKeys(m protoreflect.Message, depth int, out *[]swampKey) {
+	fds := m.Descriptor().Fields()
+	sw := ""
+	if fd := fds.ByName("SwampName"); fd != nil && fd.Kind() == protoreflect.StringKind && !fd.IsList() {
+		sw = m.Get(fd).String()
+	}
+	keysOf := func(x protoreflect.Message) (ks []string) {
+		xf := x.Descriptor().Fields()
+		if fd := xf.ByName("Key"); fd != nil && fd.Kind() == protoreflect.StringKind && !fd.IsList() {
+			ks = append(ks, x.Get(fd).String())
+		}
+		if fd := xf.ByName("Keys"); fd != nil && fd.Kind() == protoreflect.StringKind && fd.IsList() {
+			l := x.Get(fd).List()
+			for i := 0; i < l.Len() && i < 50; i++ {
+				ks = append(ks, l.Get(i).String())
+			}
+		}
+		return
+	}
+	if strings.Count(sw, "/") >= 2 && len(sw) < 1000 {
+		ks := keysOf(m)
+		for i := 0; i < fds.Len(); i++ {
+			fd := fds.Get(i)
+			if fd.Message() != nil && fd.IsList() && !fd.IsMap() {
+				l := m.Get(fd).List()
+				for k := 0; k < l.Len() && k < 50; k++ {
+					ks = append(ks, keysOf(l.Get(k).Message())...)
+				}
+			}
+		}
+		for _, k := range ks {
+			if strangeKey(k) {
+				*out = append(*out, swampKey{sw, k})
+			}
+		}
+	}
+	if depth <= 0 {
+		return
+	}
+	for i := 0; i < fds.Len(); i++ {
+		fd := fds.Get(i)
+		if fd.Message() == nil || fd.IsMap() || !m.Has(fd) {
+			continue
+		}
+		if fd.IsList() {
+			l := m.Get(fd).List()
+			for k := 0; k < l.Len() && k < 20; k++ {
+				strangeKeys(l.Get(k).Message(), depth-1, out)
+			}
+		} else {
+			strangeKeys(m.Get(fd).Message(), depth-1, out)
+		}
+	}
+}
+
+// strangeKeyFollowUps: after a flush, read that very key, read the whole swamp in every way,
+// write and delete the key again, and (every other case) destroy the swamp.
+func strangeKeyFollowUps(sk swampKey, idx int) []followUp {
+	t, k, is := sk.Swamp, sk.Key, safeIsland(sk.Swamp)
+	fu := []followUp{
+		{Name: "flush-wait", Sleep: 2500 * time.Millisecond},
+		{Name: "Get-strange-key", RPC: "Get", Msg: &hydrapb.GetRequest{Swamps: []*hydrapb.GetSwamp{{IslandID: is, SwampName: t, Keys: []string{"str", k}}}}},
+		{Name: "GetByKeys-strange-key", RPC: "GetByKeys", Msg: &hydrapb.GetByKeysRequest{IslandID: is, SwampName: t, Keys: []string{k}}},
+		{Name: "IsKeyExist-strange-key", RPC: "IsKeyExist", Msg: &hydrapb.IsKeyExistRequest{IslandID: is, SwampName: t, Key: k}},
+		{Name: "GetAll-after-strange-key", RPC: "GetAll", Msg: &hydrapb.GetAllRequest{IslandID: is, SwampName: t}},
+		{Name: "Count-after-strange-key", RPC: "Count", Msg: &hydrapb.CountRequest{Swamps: []*hydrapb.CountRequest_SwampIdentifier{{IslandID: is, SwampName: t}}}},
+		{Name: "GetByIndex-after-strange-key", RPC: "GetByIndex", Msg: &hydrapb.GetByIndexRequest{IslandID: is, SwampName: t, IndexType: hydrapb.IndexType_KEY}},
+		{Name: "Set-strange-key-again", RPC: "Set", Msg: &hydrapb.SetRequest{Swamps: []*hydrapb.SwampRequest{{IslandID: is, SwampName: t, CreateIfNotExist: true, Overwrite: true,
+			KeyValues: []*hydrapb.KeyValuePair{{Key: k, StringVal: ptr("again")}}}}}},
+		{Name: "flush-wait", Sleep: 2500 * time.Millisecond},
+		{Name: "Delete-strange-key", RPC: "Delete", Msg: &hydrapb.DeleteRequest{Swamps: []*hydrapb.DeleteRequest_SwampKeys{{IslandID: is, SwampName: t, Keys: []string{k}}}}},
+		{Name: "flush-wait", Sleep: 2500 * time.Millisecond},
+		{Name: "GetAll-after-strange-key", RPC: "GetAll", Msg: &hydrapb.GetAllRequest{IslandID: is, SwampName: t}},
+	}
+	if idx%2 == 1 {
+		fu = append(fu, followUp{Name: "Destroy-after-strange-key", RPC: "Destroy", Msg: &hydrapb.DestroyRequest{IslandID: is, SwampName: t}})
+	}
+	return fu
+}
+
 // ---- follow-ups: requests that use what a request configured ---------------------------------
 
 type followUp struct {
@@ -985,6 +1087,22 @@ type followUp struct {
 func followUps(ri rpcInfo, gc *genCase, o outcome, w *world, idx int) []followUp {
 	if !o.OK || len(gc.Msgs) == 0 {
 		return nil
+	}
+	var sks []swampKey
+	for _, m := range gc.Msgs {
+		strangeKeys(m.ProtoReflect(), 3, &sks)
+	}
+	if len(sks) > 0 {
+		var fu []followUp
+		seen := map[swampKey]bool{}
+		for _, sk := range sks {
+			if seen[sk] || len(seen) >= 2 {
+				continue
+			}
+			seen[sk] = true
+			fu = append(fu, strangeKeyFollowUps(sk, idx)...)
+		}
+		return fu
 	}
 	switch q := gc.Msgs[0].(type) {
 	case *hydrapb.RegisterSwampRequest:
